@@ -23,4 +23,16 @@ def main():
 
 
 if __name__ == '__main__':
-    sys.exit(main())
+    try:
+        rc = main()
+    except SystemExit as e:
+        rc = e.code if isinstance(e.code, int) else (0 if e.code is None else 3)
+    except BaseException:
+        import traceback
+        traceback.print_exc()
+        rc = 3
+    # leave without tearing the z3 context down: freeing millions of terms one by one at interpreter exit has been seen to
+    # take more than twenty minutes after the verdict was already printed
+    sys.stdout.flush()
+    sys.stderr.flush()
+    os._exit(rc if isinstance(rc, int) else 3)
